@@ -263,6 +263,8 @@ type Runner struct {
 
 	crash *crasher
 	ckptN int
+	// OptHook may adjust the options before every Open.
+	OptHook func(*pebble.Options)
 
 	// counters for evidence / non-triviality
 	C map[string]int
@@ -409,6 +411,9 @@ func (r *Runner) walOn() bool { return !r.Plan.Opt.DisableWAL }
 
 func (r *Runner) Open() error {
 	r.Opts = BuildOptions(r.Plan.Opt, r.FS, r.Ev.Listener(), r.Log)
+	if r.OptHook != nil {
+		r.OptHook(r.Opts)
+	}
 	db, err := pebble.Open(r.Dir, r.Opts)
 	if err != nil {
 		return errors.Wrap(err, "open")
@@ -1174,6 +1179,12 @@ func (r *Runner) Step(i int) error {
 			if err := checkVersionIndependent(r); err != nil {
 				return fmt.Errorf("after step %d %s: %v", i, s.String(), err)
 			}
+		}
+	}
+	if r.Plan.Opt.FilesCheck && r.DB != nil && (s.K == "wait" || s.K == "restart") {
+		r.Wait()
+		if err := checkFiles(r, r.noReaders()); err != nil {
+			return fmt.Errorf("after step %d %s: %v", i, s.String(), err)
 		}
 	}
 	return r.health()
